@@ -3,13 +3,16 @@ import re
 from . import common as C
 
 MANIFEST = dict(
-   technique="Lean 4 proof (case analysis over the fast paths of ParsePrimitiveStrict against ParsePrimitive, reusing the C10 check-engine theorems) + differential correspondence on real string schemas + in-harness comparison of all six entry points on 17 other schema types",
-   text="c09_strict_eq_parse proves for the primitive engine path that StrictParse and Parse yield the same verdict, value and issue positions for every check list, every modifier configuration and every input of the strict static type (nil pointers included); checked_ptr_irrelevant shows validatePointer's extra pass cannot change the outcome. The model is tied to /repo on String()/StringPtr() schemas with random check chains and modifier suffixes (all six entry points predicted), and for 17 further types (ints, floats, bool, enum, literal, slice, array, object, strict object, record, map, union, intersection, any, lazy) the six entry points are compared with each other on well-typed inputs in the harness.",
-   note="Trusted: Lean kernel; axioms propext/Classical.choice/Quot.sound at most; harness + comparer. Only the primitive engine path is modelled; ParseComplexStrict and the type-local StrictParse implementations are judged by the statement directly (entry points must agree) and their many deviations are listed as known findings by (type, Parse outcome class, StrictParse outcome class). Pointer identity of results is C15's business and not compared here.",
+   technique="Lean 4 proof (case analysis over the fast paths of ParsePrimitiveStrict against ParsePrimitive, reusing the C10 check-engine theorems; induction over histories of constructor calls, copy-on-write derivations, CloneFrom and entry-point calls on a heap of schemas with per-schema hidden state) + differential correspondence on real string schemas and string histories + in-harness comparison of all six entry points on 21 other schema types, cold and after histories",
+   text="c09_strict_eq_parse proves for the primitive engine path that StrictParse and Parse yield the same verdict, value and issue positions for every check list, every modifier configuration and every input of the strict static type (nil pointers included); checked_ptr_irrelevant shows validatePointer's extra pass cannot change the outcome. c09_history proves that in every history (constructors, any copy-on-write method, CloneFrom of both flavours in both directions, the six entry points called in any order any number of times) every entry point answers what Parse answers on the schema's current configuration, for any implementation whose per-schema state is Faithful (parsing keeps, and every derivation route re-establishes, 'the strict fast-path answer equals the condition recomputed from the schema's own fields'); the pinned code is Faithful, a memoised flag copied by CloneFrom is not (memoising_stale_witness). The model is tied to /repo on String()/StringPtr() schemas with random check chains and modifier suffixes (all six entry points predicted), on histories over families of string schemas run through the Lean history machine, and for 21 further types (ints, floats, bool, time, enum, literal, slice, array, object, strict object, record, map, union, intersection, any, unknown, lazy; bare / with the type's checks / with a refinement) the six entry points are compared with each other on well-typed inputs in the harness, on cold schemas and after histories whose derivation steps are found by reflection; a never-parsed twin separates history-induced disagreements from those of the configuration. Frame lines check by reflection that no field of core.ZodTypeInternals (unexported ones included) changes across a parse and that a derived schema's internals do not depend on earlier parses.",
+   note="Trusted: Lean kernel; axioms propext/Classical.choice/Quot.sound at most; harness + comparer. Only the primitive engine path is modelled; the Faithful hypotheses of c09_history are tied to the code by the frame observation (a change there without a concrete disagreement is reported as a broken tie); ParseComplexStrict and the type-local StrictParse implementations are judged by the statement directly (entry points must agree) and their many deviations are listed as known findings by (type, Parse outcome class, StrictParse outcome class). Pointer identity of results is C15's business and not compared here.",
    design="DESIGN.md §5 C09")
 
 MODULES = ["Gozod.Proofs.C09"]
-THEOREMS = ["Gozod.C09." + t for t in ["checked_ptr_irrelevant", "checked_no_checks", "c09_strict_eq_parse", "c09_parseAny_eq_parse"]]
+THEOREMS = ["Gozod.C09." + t for t in ["checked_ptr_irrelevant", "checked_no_checks", "c09_strict_eq_parse", "c09_parseAny_eq_parse",
+    "strictParseWith_sound", "strictFast_checks_empty", "run_ok_of_read_only", "pinned_faithful", "runEP_eq_parse", "step_spec",
+    "c09_history", "c09_history_pinned", "c09_history_entrypoints_agree", "c09_parses_do_not_matter",
+    "memoising_stale_witness", "memoising_not_faithful"]]
 
 def ocls(o):
     if o is None: return "missing"
@@ -63,6 +66,9 @@ def run(res):
     C.decide(res, "C09", data, key, "C09/ParsePrimitive+ParsePrimitiveStrict", describe=describe)
     res.coverage["rule"] = ("(A) String()/StringPtr() with 0-5 random checks (built-ins, Trim/ToLower/ToUpper/custom overwrites, refinements with 35% abort) and 0-3 random modifiers "
         "(Optional/Nilable/Nullish/NonOptional/Default/DefaultFunc/Prefault/PrefaultFunc) on inputs nil, typed nil, value, pointer, foreign kinds; "
-        "(B) 17 other schema types with 0-3 random modifiers applied by reflection on every sample input convertible to the StrictParse parameter type plus its nil. distinct = distinct op lines.")
+        "(B) 21 other schema types, bare / with own checks / with a refinement, with 0-3 random modifiers applied by reflection on every sample input convertible to the StrictParse parameter type plus its nil; "
+        "(C) histories: two relatives A, B of one type; 1-4 warm-up calls of random entry points (half of them strict) on random heap cells with value / nil inputs; one or two derivation routes "
+        "(the cell itself, a method discovered by reflection on a warm cell - modifiers, checks, accessors, And/Or wrappers -, CloneFrom between two cells in either direction, a fresh bare schema receiving a warm one); "
+        "then the six entry points on the target in two random orders, and Parse / StrictParse on never-parsed twins when the warm ones disagree; one frame line per history. distinct = distinct op lines.")
     res.assumptions += ["ASCII strings", "result values compared after dereferencing (pointer identity is C15)"]
     return res.finish()
